@@ -123,9 +123,23 @@ func VerifH08c() {
 	nd.Assert(w.doSet(0, "a", v1, 0) == nil, "H08c.pre")
 	v2 := w.freshVal()
 	var r2 fs_db.Tx
+	// optionally an eldest snapshot is already open and has read the key; then the overwrite
+	// happens before the two Begins race (three open transactions: the collector's horizon must be
+	// the eldest one's however the two younger ones registered)
+	var r0 fs_db.Tx
+	if nd.Choice("eldest-snapshot-open", 2) == 1 {
+		var err error
+		r0, err = w.d.Begin(ctx, snapshotLevels[nd.Choice("eldest-level", 2)])
+		nd.Assert(err == nil, "H08c.eldest-begin")
+		g0 := txRead(r0, "a")
+		nd.Assert(g0.found && nd.EqBytes(g0.val, v1), "H08c.eldest-first-read")
+		nd.Assert(w.d.Set(ctx, "a", v2) == nil, "H08c.overwrite")
+	}
 	nd.SetPreemptionBound(P)
 	go func() {
-		_ = w.d.Set(ctx, "a", v2)
+		if r0 == nil {
+			_ = w.d.Set(ctx, "a", v2)
+		}
 		r2, _ = w.d.Begin(ctx, fs_db.IsoLevelRepeatableRead)
 	}()
 	r1, berr := w.d.Begin(ctx, fs_db.IsoLevelRepeatableRead)
@@ -135,6 +149,14 @@ func VerifH08c() {
 	// collect (logical and physical phase) while both snapshots are open
 	nd.Assert(w.c.Cleaner().DeleteOld(ctx) == nil, "H08c.gc")
 	verifenv.RunJobs()
+	if r0 != nil {
+		g0 := txRead(r0, "a")
+		nd.Assert(g0.found, "H08c.eldest-snapshot-value-survives-collection")
+		if g0.found {
+			nd.Assert(nd.EqBytes(g0.val, v1), "H08c.eldest-snapshot-repeatable-read")
+		}
+		nd.Reach("H08c.three-open")
+	}
 	g1, g2 := txRead(r1, "a"), txRead(r2, "a")
 	nd.Assert(g1.found, "H08c.older-snapshot-value-survives-collection")
 	nd.Assert(g2.found, "H08c.younger-snapshot-value-survives-collection")
